@@ -3,7 +3,9 @@
 package checks
 
 import (
+	"fmt"
 	"math"
+	"os"
 	"math/big"
 
 	sdk "github.com/cosmos/cosmos-sdk/types"
@@ -13,6 +15,7 @@ import (
 	"github.com/ethereum/go-ethereum/core/state"
 	ethtypes "github.com/ethereum/go-ethereum/core/types"
 	"github.com/ethereum/go-ethereum/core/vm"
+	"github.com/ethereum/go-ethereum/eth/tracers/logger"
 
 	evmtypes "github.com/haqq-network/haqq/x/evm/types"
 
@@ -29,6 +32,15 @@ type gethResult struct {
 	Err     error
 	// balances after execution (before any fee-collector bookkeeping) for the mirrored accounts
 	Balances map[common.Address]*big.Int
+	// full post-state of the mirrored accounts
+	Exists  map[common.Address]bool
+	Nonces  map[common.Address]uint64
+	CodeLen map[common.Address]int
+	Logs    int
+	// DB is the reference post-state (after end-of-transaction processing); PreSlots lists the
+	// storage slots each mirrored account had before the transaction.
+	DB       *state.StateDB
+	PreSlots map[common.Address][]common.Hash
 }
 
 func gethRef(n *vn.Node, tx *ethtypes.Transaction, baseFee *big.Int, addrs []common.Address) gethResult {
@@ -38,6 +50,7 @@ func gethRef(n *vn.Node, tx *ethtypes.Transaction, baseFee *big.Int, addrs []com
 		return gethResult{Err: err}
 	}
 	seen := map[common.Address]bool{}
+	preSlots := map[common.Address][]common.Hash{}
 	for _, a := range addrs {
 		if seen[a] {
 			continue
@@ -57,6 +70,7 @@ func gethRef(n *vn.Node, tx *ethtypes.Transaction, baseFee *big.Int, addrs []com
 			}
 			n.App.EvmKeeper.ForEachStorage(ctx, a, func(k, v common.Hash) bool {
 				db.SetState(a, k, v)
+				preSlots[a] = append(preSlots[a], k)
 				return true
 			})
 		}
@@ -86,14 +100,44 @@ func gethRef(n *vn.Node, tx *ethtypes.Transaction, baseFee *big.Int, addrs []com
 		Difficulty:  big.NewInt(0),
 		BaseFee:     baseFee,
 	}
-	evm := vm.NewEVM(bctx, core.NewEVMTxContext(msg), db, cfg, vm.Config{ExtraEips: []int{3855}})
+	vmcfg := vm.Config{ExtraEips: []int{3855}}
+	var sl *logger.StructLogger
+	if os.Getenv("VERIF_TRACE") != "" {
+		sl = logger.NewStructLogger(&logger.Config{DisableStorage: true, DisableStack: false})
+		vmcfg.Debug, vmcfg.Tracer = true, sl
+	}
+	evm := vm.NewEVM(bctx, core.NewEVMTxContext(msg), db, cfg, vmcfg)
 	res, err := core.ApplyMessage(evm, msg, new(core.GasPool).AddGas(math.MaxUint64>>1))
+	if sl != nil {
+		logs := sl.StructLogs()
+		fmt.Printf("TRACE: %d steps, result err=%v\n", len(logs), res.Err)
+		for i, l := range logs {
+			if l.Err != nil || i >= len(logs)-6 || l.Op == vm.SELFDESTRUCT || l.Op == vm.CALL || l.Op == vm.DELEGATECALL || l.Op == vm.STATICCALL || l.Op == vm.CALLCODE || l.Op == vm.REVERT || l.Op == vm.INVALID {
+				fmt.Printf("  pc=%d op=%s depth=%d gas=%d cost=%d err=%v\n", l.Pc, l.Op, l.Depth, l.Gas, l.GasCost, l.Err)
+			}
+		}
+	}
 	if err != nil {
 		return gethResult{Err: err}
 	}
-	out := gethResult{UsedGas: res.UsedGas, Failed: res.Failed(), Balances: map[common.Address]*big.Int{}}
+	out := gethResult{UsedGas: res.UsedGas, Failed: res.Failed(), Balances: map[common.Address]*big.Int{},
+		Exists: map[common.Address]bool{}, Nonces: map[common.Address]uint64{}, CodeLen: map[common.Address]int{}, PreSlots: preSlots}
+	out.Logs = len(db.Logs())
+	// end of transaction: apply self-destructs, drop empty touched accounts, write storage to the trie
+	root2, err := db.Commit(true)
+	if err != nil {
+		return gethResult{Err: err}
+	}
+	db, err = state.New(root2, db.Database(), nil)
+	if err != nil {
+		return gethResult{Err: err}
+	}
 	for a := range seen {
 		out.Balances[a] = db.GetBalance(a)
+		out.Exists[a] = db.Exist(a)
+		out.Nonces[a] = db.GetNonce(a)
+		out.CodeLen[a] = len(db.GetCode(a))
 	}
+	out.DB = db
 	return out
 }
